@@ -85,10 +85,8 @@ ASSUMPTIONS = ["the scheduler is a function of the Interface view (no hidden sta
                "step twice: not promised either (measured: estimator_retry_after_it_ran); the estimator's dict itself is "
                "not an observable of the property (only what the simulation does is compared)",
                "real algorithms: the model side is C07's composition model (sorted algorithm + SimpleRampdown inside the "
-               "simulator model), run uninterrupted; it is skipped (oracle only) for the minimum-rate option on a station "
-               "whose smallest non-zero pilot is fractional (e.g. 12.5 A): SessionInfo.min_rates is an integer array "
-               "(interface.py:95), so preprocessing.py:140 stores 12 and the session gets no allowable rate — a quirk of "
-               "the sorted algorithms' preprocessing (C07/C08 territory) that is the same in every run of a case",
+               "simulator model), run uninterrupted (this comparison is what exposed finding F20, the truncated fractional "
+               "minimum pilot, repaired in /repo fcfc030)",
                "sessions are well formed (0 <= arrival < departure, distinct ids): with departure <= arrival the "
                "unplug event is already due when the run is resumed and is processed one period earlier",
                "StochasticNetwork (contrib) defines no _to_dict: its waiting queue is documented as not restorable "
